@@ -11,12 +11,31 @@ use std::cell::Cell;
 thread_local! {
     static NOW_MILLIS: Cell<u64> = const { Cell::new(0) };
     static TICK_NANOS: Cell<u64> = const { Cell::new(1_000_000) };
+    static ADVANCE_PER_READ: Cell<u64> = const { Cell::new(0) };
 }
 
 /// Sets this thread's mock clock to `ticks` ticks of `tick_nanos` nanoseconds each.
 pub fn set_now_ticks(ticks: u64, tick_nanos: u64) {
+    set_now_ticks_advancing(ticks, tick_nanos, 0);
+}
+
+/// Like `set_now_ticks`, and from now on every reading taken by `Instant::now()` or
+/// `Instant::elapsed()` is followed by the clock moving on by `advance_per_read` ticks: time passes
+/// *during* a call into the crate, as it does on a real clock.
+pub fn set_now_ticks_advancing(ticks: u64, tick_nanos: u64, advance_per_read: u64) {
     NOW_MILLIS.with(|n| n.set(ticks));
     TICK_NANOS.with(|n| n.set(tick_nanos));
+    ADVANCE_PER_READ.with(|n| n.set(advance_per_read));
+}
+
+/// One reading of the clock by the code under test.
+fn read_clock() -> u64 {
+    let t = now_millis();
+    let a = ADVANCE_PER_READ.with(|n| n.get());
+    if a != 0 {
+        NOW_MILLIS.with(|n| n.set(t.saturating_add(a)));
+    }
+    t
 }
 
 /// Returns the current value of this thread's mock clock in ticks (milliseconds by default).
@@ -36,12 +55,12 @@ pub struct Instant(u64);
 impl Instant {
     /// Reads the mock clock.
     pub fn now() -> Instant {
-        Instant(now_millis())
+        Instant(read_clock())
     }
 
     /// Time passed on the mock clock since this instant was taken.
     pub fn elapsed(&self) -> Duration {
-        let ticks = now_millis().saturating_sub(self.0) as u128;
+        let ticks = read_clock().saturating_sub(self.0) as u128;
         let nanos = ticks * TICK_NANOS.with(|n| n.get()) as u128;
         Duration::new((nanos / 1_000_000_000) as u64, (nanos % 1_000_000_000) as u32)
     }
